@@ -12,7 +12,8 @@ COVERS = ['bspline_cy:pyx_findspan', 'bspline_cy:pyx_findspans', 'bspline:KnotVe
 DOMAIN = {
     'quick': 'make_knots: all (p<=6, n<=400, mult<=max(1,p)) on [0,1] plus n in {49,98,103,107,161,187,196,1000,2000} and an '
              'interval grid; queries/findspan/refine/greville/eq/derivative on all knot vectors with p<=4 over 8 break sets '
-             'and all interior multiplicity vectors',
+             'and all interior multiplicity vectors; Greville points (inside the domain and the support of their B-spline, valid spans) of '
+             'make_knots vectors with p in 1..6 on all intervals between 21 non-dyadic end points and 300 seeded random intervals',
     'thorough': 'make_knots: all (p<=6, n<=2000, mult<=max(1,p)) on [0,1] and on the grid of 10 end points a<b for n<=300; '
                 'seeded random a<b in 1e-6..1e6; queries on p<=6',
 }
@@ -41,6 +42,24 @@ def chk_make_knots(c):
     for x in mesh[1:-1]:
         assert np.count_nonzero(kv == x) == mult, 'interior multiplicity'
     assert K.numdofs == p + 1 + mult * (n - 1), 'numdofs %d' % K.numdofs
+
+
+def chk_greville(c):
+    """Greville points of make_knots knot vectors on intervals with arbitrary (non-dyadic) end points: inside the domain and inside the
+    support of their own B-spline (rounding of the knot averages must not push the first/last point out by an ulp), usable as
+    interpolation nodes (findspan stays in range)"""
+    from pyiga import bspline
+    K = bspline.make_knots(c['p'], c['a'], c['b'], c['n'], mult=c.get('mult', 1))
+    kv, p = K.kv, K.p
+    g = K.greville()
+    assert len(g) == K.numdofs
+    assert np.all(np.diff(g) >= 0), 'greville points not sorted'
+    bad = [(j, g[j] - kv[0], g[j] - kv[-1]) for j in range(len(g)) if not (kv[0] <= g[j] <= kv[-1])]
+    assert not bad, 'greville point outside the domain: (index, g-a, g-b) = %r' % (bad[:3],)
+    for j in range(K.numdofs):
+        assert kv[j] <= g[j] <= kv[j + p + 1], 'greville point %d = %r outside the support [%r, %r] of its B-spline' % (j, g[j], kv[j], kv[j + p + 1])
+        k = K.findspan(g[j])
+        assert p <= k < len(kv) - p - 1 and kv[k] <= g[j] <= kv[k + 1], 'findspan of greville point %d out of range: %d' % (j, k)
 
 
 def chk_queries(c):
@@ -136,7 +155,7 @@ def chk_derivative(c):
     assert np.max(np.abs(S.deriv(pts) - ref)) <= 1e-9 * scale
 
 
-CHECKS = {'make_knots': chk_make_knots, 'queries': chk_queries, 'findspan': chk_findspan, 'refine': chk_refine,
+CHECKS = {'make_knots': chk_make_knots, 'greville': chk_greville, 'queries': chk_queries, 'findspan': chk_findspan, 'refine': chk_refine,
           'eq': chk_eq, 'derivative': chk_derivative}
 
 _ENDS = [-1.0, 0.0, 0.1, 0.9, 1.0, 1 / 3, 2.5, 10.0, 1e-6, 1e6]
@@ -164,6 +183,18 @@ def generate(tier, rng):
         if not (a < b) or (b - a) < 1e-9 * max(abs(a), abs(b)):
             continue
         yield 'make_knots', {'p': rng.randint(0, 6), 'a': a, 'b': b, 'n': rng.randint(1, 300), 'mult': 1}
+    # Greville points on intervals whose end points are not dyadic (p * x / p need not reproduce x)
+    ends = [-1.0, 0.0, 0.1, 0.2, 0.3, 0.35, 0.7, 0.8, 0.85, 0.9, 1.0, 1.1, 1 / 3, 1.9, 2.3, 2.5, 3.7, 4.35, 10.0, 1e-6, 1e6]
+    for a, b in itertools.product(ends, ends):
+        if a < b:
+            for p in range(1, 7):
+                for n in ((1, 6) if tier == 'quick' else (1, 2, 3, 6, 17)):
+                    yield 'greville', {'p': p, 'a': a, 'b': b, 'n': n}
+    for _ in range(300 if tier == 'quick' else 5000):
+        a = rng.choice([-1, 1]) * 10 ** rng.uniform(-3, 3)
+        b = a + 10 ** rng.uniform(-3, 3)
+        if a < b and (b - a) > 1e-9 * max(abs(a), abs(b)):
+            yield 'greville', {'p': int(rng.randint(1, 7)), 'a': float(a), 'b': float(b), 'n': int(rng.randint(1, 12)), 'mult': 1}
     pmax = 4 if tier == 'quick' else 6
     for p, kv in kvgen.knotvec_arrays(pmax=pmax):
         case = {'p': p, 'kv': kv}
